@@ -126,6 +126,8 @@ var c17shadow = []struct{ src, want string }{
 	{`{{ v := "x" }}{{ v = nil }}[{{ isset(v) }}]{{ v = 0 }}[{{ isset(v) }}]`, "[false][true]"},
 	// nil functions and channels are nil values
 	{`[{{ isset(pn.NilFn) }}{{ isset(pn.FnMap["nilfn"]) }}{{ isset(pn.FnMap.nilfn) }}{{ isset(pn.FnMap.absent) }}{{ isset(pn.AnyNilFn) }}{{ isset(nilfnvar) }}{{ isset(pn.Fn, pn.NilFn) }}{{ isset(pn.NilCh) }}|{{ isset(pn.Fn) }}{{ isset(pn.FnMap["fn"]) }}{{ isset(pn.AnyFn) }}{{ isset(fnvar) }}{{ isset(pn.Ch) }}{{ isset(pn.Fn, pn.Ch) }}]`, "[falsefalsefalsefalsefalsefalsefalsefalse|truetruetruetruetruetrue]"},
+	// keys and indexes that a collection or a function hands over boxed in interface{} count as the values they hold
+	{`[{{range _, k := ikeys}}{{isset(im[k])}}{{end}}|{{range _, i := iidx}}{{isset(ilist[i])}}{{end}}|{{k := ipick()}}{{isset(im.a, im[k], k)}}|{{range _, k := ikeys}}{{v, ok := im[k]}}{{ok}}{{end}}|{{range ikeys}}{{isset(im[.])}}{{end}}{{isset(im[ipick()])}}]`, "[truefalse|truefalse|true|truefalse|truefalsetrue]"},
 }
 
 func c17run(c *fw.Ctx, idx int) {
@@ -139,6 +141,7 @@ func c17run(c *fw.Ctx, idx int) {
 		dv := c06vars(root)
 		dv.Set("pn", c17pointers())
 		dv.Set("nilfnvar", (func() string)(nil)).Set("fnvar", func() string { return "called" })
+		dv.Set("ikeys", []interface{}{"a", "zz"}).Set("im", map[string]int{"a": 1}).Set("iidx", []interface{}{0, 5}).Set("ilist", []string{"x"}).Set("ipick", func() interface{} { return "a" })
 		out := jx.Run(map[string]string{"/t.jet": d.src}, "/t.jet", dv, root, jx.NoEscape)
 		c.Count("directed_shadowing_cases", 1)
 		if out.Failed() || out.Out != d.want {
